@@ -7,7 +7,7 @@ git -C /repo status --short | grep -q . && { echo "/repo is not clean"; exit 2; 
 for sd in "$@"; do
   for p in C01 C02 C03 C04 C05 C06 C07 C08 C09 C10 C11 C12 C13 C14 C15 C16 C17 C18 C19 C20; do
     ( VERIF_SEED=$sd ./check $p $tier > /tmp/campaign.$p.$sd.out 2>&1; echo "$p seed=$sd rc=$? $(grep -c VIOLATION /tmp/campaign.$p.$sd.out)" ) &
-    while [ $(jobs -r | wc -l) -ge 6 ]; do sleep 0.5; done
+    while [ $(jobs -r | wc -l) -ge ${JOBS:-6} ]; do sleep 0.5; done
   done
   wait
 done 2>&1 | grep -v "rc=0 0$"
